@@ -57,7 +57,7 @@ namespace
 
 int main(int argc, char** argv)
 {
-    std::string part = "sib", scen, out, tier = "quick", replay;
+    std::string part = "sib", scen, out, tier = "quick", replay, place = "asc";
     int         depth = 0, shard = 0, of = 1, group = 0, groups = 1;
     bool        list = false;
     for (int i = 1; i < argc; ++i)
@@ -82,6 +82,8 @@ int main(int argc, char** argv)
             group = std::atoi(nx().c_str());
         else if (a == "--groups")
             groups = std::atoi(nx().c_str());
+        else if (a == "--place")
+            place = nx();
         else if (a == "--replay")
             replay = nx();
         else if (a == "--list")
@@ -91,6 +93,7 @@ int main(int argc, char** argv)
     fm::out_of_memory::set_handler(no_oom);
     fm::bad_allocation_size::set_handler(no_badsize);
     install_guards(1000);
+    UP().place = place == "desc" ? PLACE_DESC : place == "alt" ? PLACE_ALT : PLACE_ASC;
     double t0 = now_s();
 
     auto sibs  = sib_scenarios();
@@ -116,6 +119,12 @@ int main(int argc, char** argv)
             for (std::size_t l = 0; l < lcs.size(); ++l)
             {
                 if (comps[c].leaves == 2 && lcs[l].name == "iiP")
+                    continue;
+                // extended leaf configurations: subset of the compositions; descending / alternating block placement: only
+                // the configurations with real pools that own more than one block
+                if (lcs[l].extended && !comp_in_subset(comps[c].name))
+                    continue;
+                if (place != "asc" && !(comp_in_subset(comps[c].name) && (lcs[l].name == "P2ii" || lcs[l].name == "N3P2i" || lcs[l].name == "iiP")))
                     continue;
                 csys.push_back({c, l, false});
                 if (comp)
@@ -187,12 +196,13 @@ int main(int argc, char** argv)
         if (!any)
             herror("unknown sibling scenario " + scen);
         rule = fmt("part 1: ALL operation sequences of length 1..%d (shard %d of %d of the first operation) over three sibling composable allocators X,Y,Z "
-                   "built on one first-fit upstream (layout R0|X|G1|Y|Z, all blocks adjacent) plus raw upstream nodes R; alphabet: "
-                   "try_allocate_node/array and growing allocate_node/array on X,Y,Z, a raw node at the lowest free address, "
+                   "built on one first-fit upstream (construction order R0,X,G1,Y,Z, all blocks adjacent; block placement '%s': asc = lowest free address, "
+                   "desc = highest free address, alt = per owner alternating lowest/highest) plus raw upstream nodes R; alphabet: "
+                   "try_allocate_node/array and growing allocate_node/array on X,Y,Z, next_iteration() on iteration allocators, a raw node, "
                    "try_deallocate_node/array(A,p,shape of p) for every A in {X,Y,Z} and every live p of every owner; one evaluation = one sequence executed "
                    "from scratch with the oracle on every step; a class is (scenario, A, owner of p, node/array, position of p relative to A's blocks, result) "
                    "or (scenario, allocator, allocation call, success)",
-                   depth, shard, of);
+                   depth, shard, of, place.c_str());
     }
     else
     {
@@ -210,10 +220,11 @@ int main(int argc, char** argv)
         if (!any)
             herror("no composition selected (" + scen + ")");
         rule = fmt("part 2: ALL operation sequences of length 1..%d over {allocate node(16), allocate array(1|2|3 x 16), release any live allocation"
-                   "; composable interface: try_ variants plus try_deallocate of an outsider pointer} on every composition x leaf configuration x interface "
+                   "; composable interface: try_ variants plus try_deallocate of an outsider pointer; next_iteration() when leaf<0> is an iteration_allocator} "
+                   "on every composition x leaf configuration x interface, upstream block placement '%s' "
                    "(group %d of %d); leaves leaf<0..2> log every call; a class is (composition, leaf configuration, interface, request, serving leaf, "
                    "number of live allocations) or (.., release shape, serving leaf)",
-                   depth, group, groups);
+                   depth, place.c_str(), group, groups);
     }
 
     jobj j;
